@@ -503,6 +503,10 @@ class GateMemoizer:
         def make_context_entry(arg):
             if isinstance(arg, str):
                 return context.get(arg)
+            elif isinstance(arg, (list, tuple)):
+                # Identifiers nested in an argument (e.g. an array item)
+                # are looked up in the context too.
+                return tuple(make_context_entry(v) for v in arg)
             else:
                 return None
 
